@@ -344,6 +344,17 @@ fn run_case<F: MathFunction + RenderHints + Clone>(
         seed: perturb_seed,
     });
     install(st.clone());
+    // the handle the workload polls: a clone, or (for odd perturbation seeds)
+    // a clone that went through the raw-pointer hand-over (into_raw /
+    // from_raw, how a token is passed to a web worker) -- made BEFORE any
+    // cancellation, which is then requested through the original handle
+    let run_token = if perturb_seed % 2 == 1 {
+        cx.ev.count("run_token_through_raw_pointer");
+        // SAFETY: the pointer comes from into_raw and is reclaimed once
+        unsafe { CancelToken::from_raw(token.clone().into_raw()) }
+    } else {
+        token.clone()
+    };
     if matches!(cancel, Cancel::BeforeStart) {
         token.cancel();
         for _ in 0..extra_cancels {
@@ -369,7 +380,7 @@ fn run_case<F: MathFunction + RenderHints + Clone>(
     } else {
         None
     };
-    let got = run_work::<F>(work, pool.as_ref(), token.clone());
+    let got = run_work::<F>(work, pool.as_ref(), run_token);
     verif_hook::set(None);
     if let Some(k) = killer {
         let _ = k.join();
